@@ -26,6 +26,7 @@ import gen_recipe as gr
 import oracle_graph as og
 import corr_graph as cg
 import corr_lattice as cl
+import oracle_c06 as o6
 
 GEN_NAME = {'CONV_2D_TRANSPOSE': 'TRANSPOSE_CONV'}
 
@@ -127,6 +128,16 @@ def main():
         viol.append({'key': f'C13:accepted-pair-nonfinite:{opn}:{mode}', 'what':
                      f'{alg} {opn} {mode}: non-finite outputs', 'input': inp})
         continue
+      # outputs track the float model: float-compute modes are checked with
+      # C06's op-level comparison (exact up to float32 rounding for
+      # weight-only / fp16, analytic bound for dynamic range)
+      if not mode.startswith('static'):
+        v6, _ = o6.check_case(qt, mb, out, feed, inp, collections.Counter(), [])
+        if v6:
+          viol.append({'key': f'C13:accepted-pair-wrong-output:{opn}:{mode}:{gran}', 'what':
+                       f'{alg} {opn} {mode} ({gran}) is accepted but the result does not track the float '
+                       f'model: {v6[0]["what"][:200]}', 'input': inp})
+          continue
       dist['ran_ok'] += 1
       nontrivial.add((alg, opn, mode, wsym, gran))
       if len(samples) < 4:
